@@ -1001,7 +1001,7 @@ pub fn parent_main(args: &Args, mode: Mode) -> ! {
     );
     match mode {
         Mode::C04 => {
-            ev.extra.insert("exempt_location_bytes_cases".into(), json!(exempt_counted));
+            ev.extra.insert("exempt_cases_location_bytes_or_shadowed_duplicate".into(), json!(exempt_counted));
         }
         Mode::C05 => {
             ev.extra.insert("deferred_to_C06".into(), json!(deferred));
@@ -1084,6 +1084,12 @@ fn c04_attribution(img: &ImageInfo, fault: &Fault) -> (bool, String) {
         if s.contains(lo) {
             pack = format!("{}#{}", img.files[fi], si);
             exempt = (lo..hi).all(|p| s.is_exempt(p));
+            // a container may store the same pack twice (tools::concat accepts it); the reader keeps
+            // the last copy, the earlier one is dead data no check looks at: damage there is
+            // generated and counted, either answer is accepted
+            if img.spans[fi].iter().skip(si + 1).any(|later| later.kind != b'C' && later.uuid == s.uuid) {
+                exempt = true;
+            }
         }
     }
     (exempt, pack)
